@@ -39,6 +39,7 @@ pub fn run_case(cx: &mut Ctx) {
         let mut expect_delta: u64 = 0;
         let mut returned: Option<f64> = None;
         let mut started_at: Option<Instant> = None;
+        let mut pending_flushed: u64 = 0;
         if rng.chance(1, 6) {
             std::thread::sleep(Duration::from_micros(rng.below(300)));
         }
@@ -158,24 +159,46 @@ pub fn run_case(cx: &mut Ctx) {
                     log.push("observe_closure_duration".into());
                     let (c_now, _) = snapshot(&h);
                     if c_now == c_before {
-                        local_own[0] += 1;
                         locals[0].flush();
                         log.push("local0.flush()".into());
+                        pending_flushed = local_own[0];
                         local_own[0] = 0;
                     }
                     expect_delta = 1;
                     started_at = Some(started);
                 }
                 12 => {
-                    // the parent local handle is flushed or cleared in between: independent of running timers
+                    // the parent local handle observes, is flushed or cleared in between: independent of running timers
                     let li = rng.usize_below(locals.len());
-                    if rng.chance(1, 2) {
-                        locals[li].flush();
-                        log.push(format!("local{}.flush()", li));
-                    } else {
-                        locals[li].clear();
-                        log.push(format!("local{}.clear()", li));
+                    match rng.below(4) {
+                        0 | 1 => {
+                            locals[li].observe(0.5);
+                            local_own[li] += 1;
+                            log.push(format!("local{}.observe(0.5)  (pending on the local handle)", li));
+                        }
+                        2 => {
+                            locals[li].flush();
+                            pending_flushed = local_own[li];
+                            local_own[li] = 0;
+                            log.push(format!("local{}.flush()", li));
+                        }
+                        _ => {
+                            locals[li].clear();
+                            local_own[li] = 0;
+                            log.push(format!("local{}.clear()", li));
+                        }
                     }
+                }
+                13 if rng.chance(1, 2) => {
+                    // the timer is dropped by a thread that is unwinding from a panic: still exactly one observation
+                    let t = timers[i].take().unwrap();
+                    let r = std::panic::catch_unwind(std::panic::AssertUnwindSafe(move || {
+                        let _held = t;
+                        panic!("workload panic with a live timer");
+                    }));
+                    assert!(r.is_err());
+                    expect_delta = 1;
+                    log.push(format!("t{} dropped while its thread unwinds from a panic", i));
                 }
                 _ => {
                     locals.push(h.local());
@@ -184,7 +207,7 @@ pub fn run_case(cx: &mut Ctx) {
                 }
             }
         }
-        count += expect_delta;
+        count += expect_delta + pending_flushed;
         let (c_after, s_after) = snapshot(&h);
         let detail = || jobj! {"history" => log.clone()};
         if c_after != count {
@@ -196,7 +219,9 @@ pub fn run_case(cx: &mut Ctx) {
             );
             return;
         }
-        if expect_delta == 1 {
+        if pending_flushed > 0 {
+            // a flush of directly observed values: only the count is modelled for this step
+        } else if expect_delta == 1 {
             let d = s_after - s_before;
             let wall = started_at.map(|s| s.elapsed().as_secs_f64()).unwrap_or_else(|| t0.elapsed().as_secs_f64());
             if !(s_after >= s_before) || !s_after.is_finite() {
@@ -223,6 +248,9 @@ pub fn run_case(cx: &mut Ctx) {
     let alive = timers.iter().filter(|t| t.is_some()).count() as u64;
     timers.clear();
     count += alive;
+    // local handles still holding directly observed values flush them when dropped
+    count += local_own.iter().sum::<u64>();
+    drop(locals);
     if snapshot(&h).0 != count {
         cx.violation("timer-observation-count-wrong", "final-drop", format!("after dropping the {} remaining timers the histogram holds {} observations, {} expected", alive, snapshot(&h).0, count), jobj! {"history" => log.clone()});
         return;
